@@ -24,6 +24,7 @@ CLAIM = {
     "technique": "Lean 4 invariant proofs by induction over operation sequences + exact op-by-op correspondence with the Python containers",
     "design_ref": "DESIGN.md §4 C15",
 }
+DRIVER_MODULES = ["HLruBytes"]
 MODELLED = {
     "clematis/engine/util/lru_bytes.py": ["LRUBytes"],
 }
